@@ -155,6 +155,22 @@ def check_pptx_paragraphs():
     return r
 
 
+def check_odp_slide():
+    OP = _mod("open_office.odp_extractor")
+    r = Result()
+    for case, page in TR.gen_odp_pages():
+        slide, _n = OP._extract_slide(None, to_et(page), 1)
+        out, want = slide.text_combined, TR.odp_page_tokens(page)
+        got = sorted(TR.tokens(out))
+        ok = got == want
+        w = None
+        if not ok:
+            d = classify(" ".join(got), " ".join(want)) or {}
+            w = dict(d, target="odp_extractor._extract_slide(...)[0].text_combined", inputs=page.brief(), expected=" ".join(want), observed=out)
+        r.add(case, ok, w)
+    return r
+
+
 def check_html_body():
     H = _mod("html_extractor")
     return _singles_then_pairs(TR.gen_html_bodies(), lambda d: H._HtmlTextExtractor(to_hdict(N("root", d))).extract(),
@@ -278,7 +294,7 @@ CHECKS = {
     "docx.paragraph": check_docx_paragraph, "docx.table": check_docx_table, "docx.body": check_docx_body,
     "odt.body": check_odt_body, "html.extract": check_html_body, "odf.element_text": check_odf_text,
     "ods.sheet": check_ods_sheet, "xlsx.format": check_xlsx_format, "xls.format": check_xls_format,
-    "dt.slides": check_dt_slides, "odg.text": check_odg_text, "pptx.paragraphs": check_pptx_paragraphs,
+    "dt.slides": check_dt_slides, "odp.slide": check_odp_slide, "odg.text": check_odg_text, "pptx.paragraphs": check_pptx_paragraphs,
 }
 
 
@@ -307,6 +323,7 @@ FUNC_OF_CHECK = {
     "xlsx.format": "xlsx_extractor.py::_format_sheet_as_text", "xls.format": "xls_extractor.py::_format_sheet_as_text",
     "odf.element_text": "_shared.py::element_text",
     "odg.text": "odg_extractor.py::_extract_full_text", "pptx.paragraphs": "pptx_extractor.py::_extract_text_from_paragraphs",
+    "odp.slide": "odp_extractor.py::_extract_slide",
 }
 
 # obligation id fragment -> (check, cases, kinds)
@@ -322,6 +339,8 @@ WITNESS_MAP = [
     ("_extract_full_text_from_body/inv-preserve#blocks.sq[content-control]", "docx.body", ["content-control"], None),
     ("_extract_full_text_from_body/", "docx.body", ["plain", "content-control"], None),
     ("_shared.py::", "odf.element_text", None, None),
+    ("_extract_slide/block#slide-text", "odp.slide", None, None),
+    ("_extract_slide/block#speaker-notes", "odp.slide", None, ["leaked"]),
     ("xls_extractor.py::_format_sheet_as_text/", "xls.format", None, None),
     ("PptSlideContent.text_combined", "dt.slides", ["PptSlideContent"], None),
     ("OdpSlide.text_combined", "dt.slides", ["OdpSlide"], None),
